@@ -571,6 +571,9 @@ func installDenyStrictHere() string {
 }
 
 func run(job *kjob.Job) {
+	if _, err := os.Stat("/proc/sys/kernel/seccomp/actions_logged"); err != nil {
+		emit(kjob.Event{Step: -1, Ev: "env", State: "seccomp-sysctl-hidden"})
+	}
 	if job.Uname26 {
 		if _, _, e := syscall.Syscall(syscall.SYS_PERSONALITY, 0x0020000, 0, 0); e != 0 {
 			emit(kjob.Event{Step: -1, Ev: "error", Err: "personality: " + e.Error()})
